@@ -2531,7 +2531,13 @@ fn convert_value_to_type2<'a>(
         // Remove quotes
         let text_content = &text[1..text.len() - 1];
         // Handle escape sequences
-        let unescaped = unescape_text(text_content);
+        let unescaped = try_unescape_text(text_content).ok_or_else(|| Error::PARSER {
+          position: pest_span_to_position(&inner.as_span(), input),
+          msg: ErrorMsg {
+            short: "Invalid escape sequence in text string".to_string(),
+            extended: None,
+          },
+        })?;
         return Ok(ast::Type2::TextValue {
           value: Cow::Owned(unescaped),
           span,
@@ -2568,7 +2574,12 @@ fn convert_value_to_type2<'a>(
         // Remove quotes
         let text_content = &text[1..text.len() - 1];
         // Handle escape sequences
-        let unescaped = unescape_text(text_content);
+        let unescaped = try_unescape_text(text_content).ok_or_else(|| Error::PARSER {
+          msg: ErrorMsg {
+            short: "Invalid escape sequence in text string".to_string(),
+            extended: None,
+          },
+        })?;
         return Ok(ast::Type2::TextValue {
           value: Cow::Owned(unescaped),
         });
@@ -2588,8 +2599,10 @@ fn convert_value_to_type2<'a>(
   })
 }
 
-/// Unescape text value (supports RFC 9682 \u{hex} escapes and surrogate pairs)
-fn unescape_text(text: &str) -> String {
+/// Unescape text value (supports RFC 9682 \u{hex} escapes and surrogate pairs).
+/// Returns `None` when a \u escape does not denote a Unicode scalar value (lone or
+/// reversed surrogate, code point above U+10FFFF); such a literal is invalid.
+fn try_unescape_text(text: &str) -> Option<String> {
   let mut result = String::new();
   let mut chars = text.chars();
 
@@ -2607,6 +2620,7 @@ fn unescape_text(text: &str) -> String {
           'b' => result.push('\u{0008}'),
           'f' => result.push('\u{000C}'),
           'u' => {
+            let len_before = result.len();
             // Check for RFC 9682 \u{hex} form
             let mut peekable = chars.clone();
             if peekable.next() == Some('{') {
@@ -2646,6 +2660,11 @@ fn unescape_text(text: &str) -> String {
                 }
               }
             }
+            // A well-formed \u escape contributes exactly one character; nothing was
+            // pushed for a lone/reversed surrogate or a value that is not a scalar value.
+            if result.len() == len_before {
+              return None;
+            }
           }
           _ => {
             result.push('\\');
@@ -2658,7 +2677,13 @@ fn unescape_text(text: &str) -> String {
     }
   }
 
-  result
+  Some(result)
+}
+
+/// Unescape a text value that is known to be valid
+#[cfg(test)]
+fn unescape_text(text: &str) -> String {
+  try_unescape_text(text).unwrap_or_default()
 }
 
 /// Convert number to Type2
